@@ -444,6 +444,7 @@ def SCHEMA_GENERATORS(src, attempt, problems):
             ('GenAccumulator.v', lambda: __import__('translate_methods').gen_accumulator(src, attempt)),
             ('GenPtrCode.v', lambda: __import__('translate_methods').gen_ptr_code(src, attempt)),
             ('GenModifiers.v', lambda: __import__('translate_methods').gen_modifiers(src, attempt)),
+            ('GenDynArms.v', lambda: __import__('translate_methods').gen_dyn_arms(src, attempt)),
             ('GenFixint.v', lambda: __import__('translate_methods').gen_fixint(src, attempt)),
             ('GenEntryPoints.v', lambda: __import__('translate_methods').gen_entry_points(src, attempt, __import__('translate').match_template, __import__('rustexpr').tokenize))]
 
